@@ -30,6 +30,7 @@ func famOp(fam int, composite bool, tag string) func() {
 		l := mod.List[int](clone(xs))
 		s := mod.Set[int](clone(xs))
 		c := mod.Catalog[int, int](map[int]int{1: xs[0]})
+		sh := mod.List[int]([]int{1, 2})
 		switch fam {
 		case 0:
 			return func() {
@@ -53,7 +54,12 @@ func famOp(fam int, composite bool, tag string) func() {
 		case 2:
 			return func() { l.GetIndex(v); l.ContainsValue(v); s.ContainsValue(v); s.GetIndex(v) }
 		case 3:
-			return func() { l.SortValues(); l.ReverseValues(); age.Sorter[int]().Make().SortValues(l.AsArray()) }
+			return func() {
+				l.SortValues()
+				l.ReverseValues()
+				age.Sorter[int]().Make().SortValues(l.AsArray())
+				sh.ShuffleValues() // two values: one random draw
+			}
 		case 4:
 			k := age.Collator[int]().Make()
 			return func() { k.RankValues(xs[0], v); k.CompareValues(xs[1], v) }
@@ -78,6 +84,7 @@ func famOp(fam int, composite bool, tag string) func() {
 	}
 	l := mod.List[[]int](append([][]int{}, xs...))
 	s := mod.Set[[]int](append([][]int{}, xs...))
+	sh := mod.List[[]int](append([][]int{}, xs[:2]...))
 	switch fam {
 	case 0:
 		return func() { mod.List[[]int](append([][]int{}, xs...)); mod.Set[[]int](append([][]int{}, xs...)) }
@@ -86,7 +93,11 @@ func famOp(fam int, composite bool, tag string) func() {
 	case 2:
 		return func() { l.GetIndex(v); s.ContainsValue(v) }
 	case 3:
-		return func() { l.SortValues(); age.Sorter[[]int]().Make().SortValues(l.AsArray()) }
+		return func() {
+			l.SortValues()
+			age.Sorter[[]int]().Make().SortValues(l.AsArray())
+			sh.ShuffleValues()
+		}
 	case 4:
 		k := age.Collator[[]int]().Make()
 		return func() { k.RankValues(xs[0], v); k.CompareValues(xs[1], v) }
